@@ -114,3 +114,63 @@ Qed.
 (* the premise is satisfiable: the leap day of 2024 *)
 Example date_roundtrip_example : valid_date 2024 2 29 /\ as_date (date_show (2024, 2, 29)) = Ok (2024, 2, 29).
 Proof. split; [unfold valid_date; cbn; lia | reflexivity]. Qed.
+
+(* ---------- GenBankFields.Slice: REFERENCE base ranges (property C03) *)
+
+Lemma overlap_spec s e lo hi : s <= e -> lo <= hi ->
+  go_rangeOverlap s e lo hi = (s <? hi) && (lo <? e).
+Proof.
+  intros H1 H2. unfold go_rangeOverlap.
+  destruct (Z.ltb_spec e s); [lia|]. destruct (Z.ltb_spec hi lo); [lia|]. reflexivity.
+Qed.
+
+(* a kept range is the intersection of the old range with the window, re-based:
+   non-empty and inside [0, end-start) *)
+Definition kept (start end_ s e : Z) : bool := negb (start =? end_) && go_rangeOverlap s e start end_.
+
+Theorem clip_is_intersection start end_ s e : start <= end_ -> s < e ->
+  kept start end_ s e = true ->
+  let h := go_Max 0 (s - start) in let t := go_Min (end_ - start) (e - start) in
+  h + start = Z.max s start /\ t + start = Z.min e end_ /\ 0 <= h < t /\ t <= end_ - start.
+Proof.
+  intros Hw Hr Ho. unfold kept in Ho. rewrite overlap_spec in Ho by lia. unfold go_Max, go_Min. cbv zeta.
+  destruct (Z.ltb_spec (s - start) 0); destruct (Z.ltb_spec (end_ - start) (e - start)); lia.
+Qed.
+
+(* a reference is dropped exactly when none of its ranges meets the window *)
+Theorem clip_empty_iff start end_ locs :
+  clip_ranges start end_ locs = [] <-> Forall (fun '(s, e) => kept start end_ s e = false) locs.
+Proof.
+  unfold clip_ranges. induction locs as [|[s e] t IH]; cbn [filter map]; [split; [constructor|reflexivity]|].
+  fold (kept start end_ s e). destruct (kept start end_ s e) eqn:E; cbn [map].
+  - split; [discriminate|]. intros H. inversion H; subst. congruence.
+  - rewrite IH. split; [intros H; constructor; assumption|intros H; inversion H; assumption].
+Qed.
+
+(* nothing is kept by an empty window, and what is disjoint from the window is not kept *)
+Theorem kept_only_overlapping start end_ s e : start <= end_ -> s < e ->
+  kept start end_ s e = true <-> (Z.max s start < Z.min e end_).
+Proof.
+  intros Hw Hr. unfold kept. rewrite overlap_spec by lia. split; intros H; lia.
+Qed.
+
+(* the kept references are renumbered 1, 2, 3, ... *)
+Lemma renumber_numbers rs : forall n, map r_number (renumber n rs) = zrange n (n + zlen rs).
+Proof.
+  induction rs as [|r t IH]; intros n; cbn [renumber map].
+  - unfold zrange, zlen. cbn [length]. replace (n + Z.of_nat 0 - n) with 0 by lia. reflexivity.
+  - rewrite IH. unfold zrange, zlen. cbn [length].
+    replace (n + Z.of_nat (S (length t)) - n) with (Z.of_nat (S (length t))) by lia.
+    replace (n + 1 + Z.of_nat (length t) - (n + 1)) with (Z.of_nat (length t)) by lia.
+    rewrite !Nat2Z.id. reflexivity.
+Qed.
+
+Lemma renumber_length rs : forall n, length (renumber n rs) = length rs.
+Proof. induction rs as [|r t IH]; intros n; cbn [renumber length]; [reflexivity|now rewrite IH]. Qed.
+
+Theorem refs_slice_numbered mol start end_ refs rs :
+  refs_slice mol start end_ refs = Ok rs -> map r_number rs = zrange 1 (1 + zlen rs).
+Proof.
+  unfold refs_slice. destruct (omapM _ refs) as [l|k| |]; cbn [obind]; try discriminate.
+  intros H. inversion H; subst. rewrite renumber_numbers. unfold zlen. now rewrite renumber_length.
+Qed.
